@@ -627,12 +627,98 @@ def run_canaries(events, badids):
         want.append('canary-deck')
         d = dict(dk[0]); d['depth'] = [d['depth'][0] // 2, d['depth'][1]]; d['id'] = 'canary-depth'; can.append(d)
         want.append('canary-depth')
+    mx = [e for e in good if e['ev'] == 'mix' and not e['raised']]
+    spot = None
+    for e in mx:
+        for k, row in enumerate(e['tb'][0]):
+            for w, o in enumerate(row):
+                if o[0] > 0 and o[1] >= -11 and e['th'][k][w][0] > 0 and spot is None:      # a transmittance above 1e-3
+                    spot = (e, k, w)
+    if spot:
+        e, k, w = spot
+        m = dict(e); m['tb'] = [[[list(o) for o in row] for row in tb] for tb in e['tb']]
+        m['tb'][0][k][w][0] = m['tb'][0][k][w][0] // 2 + 1          # the haze / cloud counted twice or not at all
+        m['id'] = 'canary-mix'; can.append(m); want.append('canary-mix')
+        g2 = dict(e); g2['id'] = 'canary-mix-good'; can.append(g2)
+    elif not badids:
+        raise Machinery('no mix event available for the canary')
     if not can:
         return
     ok, bad, res = validate_trace('Trace_Clouds', 'Trace_Clouds.cfg', can)
     got = sorted(x['id'] for x in bad)
     if got != sorted(want):
         raise Machinery('canary: expected %r to be rejected, TLC rejected %r' % (sorted(want), got))
+
+
+# --------------------------------------------------------------------------- binding C: history walks
+def history_scenarios(X):
+    from .. import history
+
+    class OneModel(history.Scenario):
+        """ONE long-lived TransmissionModel: band-saturating absorber + one cloud / haze contribution; all
+        settings through model[<fitting parameter>]; the number of layers never changes."""
+
+        def __init__(self, name, kind, params, dims, n=8):
+            self.name, self.kind, self.params, self.dims, self.n = name, kind, params, dims, n
+            self.base = dict(atm_max_pressure=1e6, atm_min_pressure=1e-2, T=1000.0, planet_radius=1.0,
+                             clouds_pressure=1e3, flat_topP=-1, flat_bottomP=-1, lee_mie_topP=-1, lee_mie_bottomP=-1)
+
+        def contribution(self, c):
+            if self.kind == 'deck':
+                return X['SimpleCloudsContribution'](clouds_pressure=c['clouds_pressure'])
+            if self.kind == 'flat':
+                return X['FlatMieContribution'](flat_mix_ratio=2e-26, flat_bottomP=c['flat_bottomP'], flat_topP=c['flat_topP'])
+            return X['LeeMieContribution'](lee_mie_radius=0.5, lee_mie_q=30.0, lee_mie_mix_ratio=3e-11,
+                                           lee_mie_bottomP=c['lee_mie_bottomP'], lee_mie_topP=c['lee_mie_topP'])
+
+        def fresh(self, v):
+            c = dict(self.base)
+            c.update(dict(zip(self.params, v)))
+            chem = X['TaurexChemistry'](fill_gases=['H2', 'He'], ratio=0.17)
+            chem.addGas(X['ConstantGas']('H2O', mix_ratio=1e-3))
+            chem.addGas(X['ConstantGas']('CH4', mix_ratio=1e-4))
+            m = X['TransmissionModel'](planet=X['Planet'](planet_mass=1.0, planet_radius=c['planet_radius']), star=X['BlackbodyStar'](),
+                                       temperature_profile=X['Isothermal'](T=c['T']), chemistry=chem, nlayers=self.n,
+                                       atm_min_pressure=c['atm_min_pressure'], atm_max_pressure=c['atm_max_pressure'])
+            m.add_contribution(X['AbsorptionContribution']())
+            m._verif_c = self.contribution(c)
+            m.add_contribution(m._verif_c)
+            m.build()
+            return m
+
+        def set(self, m, d, value, values):
+            m[self.params[d]] = value
+
+        def observe(self, m):
+            g, depth, tr, _ = m.model()
+            return dict(sigma=np.asarray(m._verif_c.sigma_xsec), tr=np.asarray(tr), depth=np.asarray(depth))
+
+    P_MAX, P_MIN = [1e4, 1e5, 1e6], [1e-2, 1.0, 30.0]
+    return [OneModel('deck:grid', 'deck', ['atm_max_pressure', 'atm_min_pressure', 'clouds_pressure'], [P_MAX, P_MIN, [2e2, 5e3, 2e5]]),
+            OneModel('deck:T-R', 'deck', ['clouds_pressure', 'T', 'planet_radius'], [[1e-3, 3e3, 1e7], [700.0, 1000.0, 1600.0], [0.8, 1.0, 1.3]]),
+            OneModel('flat:grid', 'flat', ['atm_max_pressure', 'flat_topP', 'flat_bottomP'], [P_MAX, [-1, 5.0, 3e3], [-1, 2e4, 50.0]]),
+            OneModel('flat:top', 'flat', ['atm_min_pressure', 'flat_topP', 'T'], [P_MIN, [-1, 0.5, 4e2], [700.0, 1000.0, 1600.0]]),
+            OneModel('lee:grid', 'lee', ['atm_max_pressure', 'lee_mie_topP', 'lee_mie_bottomP'], [P_MAX, [-1, 5.0, 3e3], [-1, 2e4, 50.0]]),
+            OneModel('lee:top', 'lee', ['atm_min_pressure', 'atm_max_pressure', 'lee_mie_topP'], [P_MIN, P_MAX, [-1, 0.5, 4e2]])]
+
+
+def replay_history(ctx, v, X):
+    from ..history import digest
+    vec = v['vector']
+    sc = next((x for x in history_scenarios(X) if x.name == vec['history']), None)
+    if sc is None:
+        raise Machinery('replay: unknown history scenario %r' % vec['history'])
+    vals = list(vec['init'])
+    obj = sc.fresh(list(vals))
+    ok = True
+    for step in vec['trail']:
+        if step.startswith('set'):
+            d, val = step[3:].split('=', 1)
+            vals[int(d)] = float(val)
+            sc.set(obj, int(d), float(val), list(vals))
+        elif step.startswith('eval'):
+            ok = ok and digest(sc.observe(obj)) == digest(sc.observe(sc.fresh(list(vals))))
+    ctx.verdict(v['clause'], ok, cls=v['cls'], detail='replay of the walk %r from %r' % (vec['trail'], vec['init']), vector=vec)
 
 
 # --------------------------------------------------------------------------- entry points
@@ -649,6 +735,8 @@ def run(ctx):
                        'gas opacity fixture: flat cross-section through the real InterpolatingOpacity / AbsorptionContribution']
     ctx.check_spec('exhaustive', 'MC_Clouds', 'MC_Clouds_%s.cfg' % ctx.tier, need_actions=('EvalDeck', 'EvalFlat', 'EvalLee'))
     ctx.expect_refuted('maxnorm-refuted', 'MC_Clouds', 'MC_Clouds_maxnorm.cfg', 'DeclaredMagnitudeInside')
+    ctx.check_spec('mix', 'MC_CloudsMix', 'MC_CloudsMix_%s.cfg' % ctx.tier, need_actions=('Add', 'EarlyExit', 'Finish'))
+    ctx.expect_refuted('mix-any-refuted', 'MC_CloudsMix', 'MC_CloudsMix_any.cfg', 'SumOrLicensed')
     ctx.exhaustive = True
     X = setup()
     rng = random.Random(ctx.seed * 15485863 + 19)
@@ -662,6 +750,13 @@ def run(ctx):
     nev = run_vectors(ctx, vecs, X, rng)
     ctx.note('binding A: %d exported vectors, %d real runs judged' % (len(vecs), nev))
     run_random(ctx, X, rng, 24 if q else 400, 30 if q else 60, 40 if q else 100)
+    ctx.note('mix events: %(mix_events)d; tangent layers opaque in the line cores AND transparent in the windows with haze present: '
+             '%(mixed_layers)d; layers under the tau>10 licence at every wavenumber: %(licensed_layers)d' % STATS)
+    if STATS['mixed_layers'] < 20 or STATS['licensed_layers'] < 5:
+        raise Machinery('the band-saturating absorber did not produce mixed / fully saturated layers: %r' % STATS)
+    from .. import history
+    nh = history.run_history(ctx, history_scenarios(X), 6 if q else 40)
+    ctx.note('binding C: %d history walks on long-lived models' % nh)
 
 
 def replay(ctx, violations):
@@ -671,32 +766,52 @@ def replay(ctx, violations):
     items = []
     for i, v in enumerate(violations):
         vec = v['vector']
+        if vec.get('history'):
+            replay_history(ctx, v, X)
+            continue
         old = vec.get('event')
         if old is None:
             continue
         eid = 'R%d' % i
         base_cls = v['cls'].split(':exact-zero')[0].split(':1e-12')[0]
-        if vec.get('random'):
+        want_mix = bool(vec.get('mix_only') or (vec.get('mix') and not vec.get('random')))
+        if vec.get('random') and 'long' in vec:
+            world, grid, seq = long_sequence(X, vec['wsub'], vec['n'], vec['long'] + 1)
+            e, cls, recipe, info = seq[-1]
+            if want_mix:
+                e = info.get('_mix')
+            if e is None:
+                raise Machinery('replay: event not produced again')
+            e = dict(e, id=eid)
+        elif vec.get('random'):
             key = (vec['wsub'], vec['n'])
             if key not in worlds:
                 worlds[key] = random_world(X, random.Random(vec['wsub']), vec['n'])
             world, grid = worlds[key]
-            e, cls, recipe, info = random_event(world, grid, vec['esub'], eid, vec['run_model'])
+            e, cls, recipe, info = random_event(world, grid, vec['esub'], eid, vec['run_model'], mix=vec.get('mix', False))
+            if want_mix:
+                e = dict(info['_mix'], id=eid)
         else:
-            base = {k: vec[k] for k in vec if k not in ('event', 'pclass')}
+            base = {k: vec[k] for k in vec if k not in ('event', 'pclass', 'mix')}
             world = world_for_grid(X, base['lev'], vec['pclass'], cache)
             pos2p = pos2p_factory(world, base['lev'])
             if base['kind'] == 'deck':
                 n = len(base['lev']) - 1
                 cen2 = [base['lev'][k] + base['lev'][k + 1] for k in range(n)]
-                e, info = deck_event(world, eid, cen2, base['deck'], pos2p(base['deck']), True)
+                e, info = deck_event(world, eid, cen2, base['deck'], pos2p(base['deck']), True, mix=want_mix)
             else:
                 pars = dict(flat=dict(mix=3.0e-27), lee=dict(a=0.7, q=40.0, mix=2.0e-12))
                 e, info, sigma, mag = haze_event(world, eid, base['kind'], base['lev'], base['b'], base['t'],
-                                                 bound_value(base['b'], pos2p), bound_value(base['t'], pos2p), pars[base['kind']], True)
-                if v['cls'] != base_cls:
+                                                 bound_value(base['b'], pos2p), bound_value(base['t'], pos2p), pars[base['kind']], True,
+                                                 mix=want_mix)
+                if v['cls'] != base_cls and not want_mix:
                     exact_checks(ctx, e, base['adm'], sigma, mag, base_cls, vec)
                     continue
+            if want_mix:
+                e = dict(info['_mix'], id=eid)
+        if e.get('raised') and e['ev'] == 'mix':
+            ctx.verdict(v['clause'], False, cls=v['cls'], detail='replay: model() raised %s' % e.get('exception'), vector=vec)
+            continue
         items.append((v, e, base_cls))
     if not items:
         return
